@@ -23,7 +23,10 @@ Mutants (checks/mutants/C12) and the stage that catches each:
   readfull-to-read-server.diff   io.ReadFull -> Read in Server.readTCP          [GEN stream/readTCP/message-mangled]
   prefix-separate-write.diff     response.Write: prefix and body in two Writes  [GEN stream/response.Write-concurrent/frames-interleaved]
   udp-id-loop-breaks.diff        datagram ID loop ends at the first reply        [GEN idmatch/dgram/...]
-  pool-put-before-unpack.diff    buffer returned to the pool before unpack       [TV exchange-pc|udp/handler-saw-foreign-request]
+  pool-put-before-unpack.diff    buffer returned to the pool before unpack       [TV exchange-pc|udp/handler-saw-foreign-request:* /
+                                                                                  handler-saw-request-from-recycled-buffer; needs the
+                                                                                  recorder's private-use RR whose Unpack waits for later
+                                                                                  packets in the middle of decoding]
   no-cloneslice-unpackA.diff     A rdata aliases the receive buffer              [TV exchange-pc|udp/request-changed-under-handler]
   oversize-not-refused.diff      Conn.Write / response.Write accept 65536 octets [GEN stream/Write|response.Write/oversize-accepted]
 """
@@ -61,10 +64,20 @@ def mc_all(ctx):
         raise vp.Infra("non-vacuity: MC_Exchange with Release before Decode must violate NoMixing:\n" + r.out[-800:])
 
 
+def extra_sizes(ctx):
+    """body sizes beyond the fixed boundary ones, derived from the seed (23..65534)"""
+    import random
+    rnd = random.Random(ctx.seed)
+    n = 2 if ctx.quick else 5
+    return sorted({rnd.choice([rnd.randrange(23, 600), rnd.randrange(600, 16384), rnd.randrange(16384, 65535)]) for _ in range(n)} | {65534})
+
+
 def gen_replay(ctx, binp, mode, nshards=1, shards=(0,)):
+    extra = "{" + ", ".join(map(str, extra_sizes(ctx))) + "}"
+
     def one(sh):
         r, vecs = ctx.tlc_vectors("Gen_Stream", workers=1, xmx="3g", timeout=3000,
-                                  consts={"Mode": '"%s"' % mode, "NShards": nshards, "Shard": sh})
+                                  consts={"Mode": '"%s"' % mode, "NShards": nshards, "Shard": sh, "Extra": extra})
         path = os.path.join(r.dir, "vectors.ndjson")
         if not os.path.exists(path):
             raise vp.Infra("Gen_Stream mode %s produced no vectors" % mode)
